@@ -90,6 +90,17 @@ def sweep(props, n_max=3, seed=0, samples_per_shape=2, max_runs_per_world=300, i
                 for res in itertools.product(resources, repeat=n):
                     nodes = [dict(id=NAMES[i], deps=[(NAMES[a], []) for a, b in es if b == i], prio=0, seq=False, res=res[i]) for i in range(n)]
                     yield World(nodes, max_concurrency=2), False
+        if allow_active:
+            # phase 1b (deterministic): two nodes gated by (possibly different) parts of the SAME node's result, in
+            # both priority orders -- activation is decided per reference (id AND key path), not per flag node
+            keys = [["t"], ["f"], ["k", "t"], ["k", "f"], []]
+            for k1 in keys:
+                for k2 in keys:
+                    for pb, pc in ((2, 1), (1, 2)):
+                        nodes = [dict(id="a", deps=[], prio=0, seq=False, res="thread"),
+                                 dict(id="b", deps=[], prio=pb, seq=False, res="thread", active=("a", list(k1))),
+                                 dict(id="c", deps=[], prio=pc, seq=False, res="thread", active=("a", list(k2)))]
+                        yield World(nodes, max_concurrency=1), False
         # phase 2 (sampled with the seed): random priorities, sequential flags, limits, failing / deactivated nodes
         for n in range(1, n_max + 1):
             for es in shapes(n):
